@@ -2671,3 +2671,73 @@ def el2(m, run):
             bad.append((p, why))
     run.ob('EL2.elevation-reduction-exact', '%s :: degrees 2..7 on exactly reducible polygons' % fr.key, not bad, 'reduce(elevate(P)) = P as a polynomial identity' if not bad else
            'degree %d: %s   [%d of %d degrees]' % (bad[0][0], bad[0][1], len(bad), n), 'geomdl/helpers.py:%d in %s' % (fr.node.lineno, fr.key))
+
+
+# ====================================================================================== C17: serial and parallel variants on abstract inputs
+def pool_stub(record):
+    """a process pool whose map applies the function to every item in order (the contract of multiprocessing.Pool.map) and records its use"""
+    pool = Bag('rec:pool')
+
+    def pmap(sk, node, f, items, *a, **k):
+        items = list(items)
+        record.append(('map', len(items)))
+        return [sk.apply(f, [x], {}, node) for x in items]
+    pool._a['map'] = Py(pmap, 'pool.map')
+    pool._a['__enter__'] = Py(lambda sk, node: pool, '__enter__')
+    return pool
+
+
+def ag52(m, run, rule='AG5.serial-parallel'):
+    """AG52: _voxelize.find_inouts_st and find_inouts_mp interpreted on the same abstract voxel grid (sizes not divisible by the number of
+    processes included) with the point-in-voxel predicate replaced by a recorder: both return one flag per voxel, in voxel order, each
+    the predicate of that voxel with the same points and the same tolerance"""
+    st, mp = m.func('_voxelize.find_inouts_st'), m.func('_voxelize.find_inouts_mp')
+    bad = []
+    cases = [(nvox, procs) for nvox in (1, 5, 8, 27) for procs in (2, 4)]
+    for nvox, procs in cases:
+        grid = [('voxel', i) for i in range(nvox)]
+        ptsarr = [('pts',)]
+        outs = {}
+        why = None
+        for name, fi in (('st', st), ('mp', mp)):
+            asked = []
+
+            def inside(sk, node, bb, *a, _asked=asked, **k):
+                p_ = k.get('ptsarr', a[0] if a else None)
+                _asked.append((bb, p_, k.get('tol', a[1] if len(a) > 1 else 'default')))
+                return 1 if isinstance(bb, tuple) and bb[1] % 2 == 0 else 0
+            rec = []
+            ab = dict(STD_ABSTRACTED)
+            ab[('_voxelize', 'is_point_inside_voxel')] = Py(inside, 'is_point_inside_voxel')
+            ab[('_voxelize', 'pool_context')] = Py(lambda sk, node, *a, _r=rec, **k: pool_stub(_r), 'pool_context')
+            ab[('_utilities', 'pool_context')] = ab[('_voxelize', 'pool_context')]
+            sk = SK(m, ab)
+            try:
+                out = sk.call(fi, [list(grid), ptsarr], {'tol': 0.125, 'num_procs': procs})
+            except Violation as v:
+                why = '%s: %s %s' % (fi.key, v.msg, v.where())
+                break
+            except Unsupported as ex:
+                raise AnalysisError('%s: interpreter met an unsupported construct: %s' % (fi.key, ex))
+            outs[name] = (out, asked)
+        if why is None:
+            want = [1 if i % 2 == 0 else 0 for i in range(nvox)]
+            for name in ('st', 'mp'):
+                out, asked = outs[name]
+                fname = 'find_inouts_' + name
+                if not isinstance(out, list) or [int(bool(x)) for x in out] != want:
+                    why = '%s returns %s flags for %d voxels%s' % (fname, len(out) if isinstance(out, list) else out, nvox,
+                                                                   '' if isinstance(out, list) and len(out) != nvox else ' and they are not the predicate of the voxel at the same position')
+                elif sorted(a[0][1] for a in asked) != list(range(nvox)):
+                    why = '%s tests the voxels %s' % (fname, sorted(a[0][1] for a in asked)[:10])
+                elif any(a[1] is not ptsarr for a in asked):
+                    why = '%s does not hand the data points to the predicate' % fname
+                elif any(a[2] != 0.125 for a in asked):
+                    why = '%s calls the predicate with tolerance %r, the caller asked for 0.125' % (fname, asked[0][2])
+                if why:
+                    break
+        if why:
+            bad.append(((nvox, procs), why))
+    run.ob(rule, '_voxelize.find_inouts_st / find_inouts_mp :: %d (grid size, processes) cases' % len(cases), not bad,
+           'one flag per voxel in voxel order, same predicate arguments in both variants' if not bad else
+           '%d voxels, %d processes: %s   [%d of %d cases]' % (bad[0][0][0], bad[0][0][1], bad[0][1], len(bad), len(cases)), 'geomdl/_voxelize.py')
